@@ -78,8 +78,15 @@ class FullFrontend(ConstrainedFrontend):
             self._tls.solver = self._solver_backend.solver(timeout=self.timeout, max_memory=self.max_memory)
             self._add_constraints()
         elif self._finalized and len(self._to_add) > 0:
-            if not hasattr(self._solver_backend, "clone_solver") or self._solver_backend.reuse_z3_solver:
+            if (
+                not hasattr(self._solver_backend, "clone_solver")
+                or self._solver_backend.reuse_z3_solver
+                or self._track
+            ):
                 # this function may return a cached solver
+                # (a tracked solver is not cloned: Z3's translate() loses the assert_and_track names, so the clone
+                # reports cores as formulas - or not at all when `false` is tracked - and unsat_core() came back
+                # empty or satisfiable after branch() + add())
                 self._tls.solver = self._solver_backend.solver(timeout=self.timeout, max_memory=self.max_memory)
             else:
                 self._tls.solver = self._solver_backend.clone_solver(self._tls.solver)
